@@ -15,12 +15,14 @@ DFA = {
 }
 
 
-def event_of(t):
+def event_of(t, wrappers=()):
     """classify a MIR call terminator w.r.t. the per-item generator"""
     c = mirq.callee_of(t)
     tys = t.get("arg_tys", [])
     direct = any(ty in (GEN, "&mut " + GEN, "&" + GEN) for ty in tys)
     if short(t.get("callee", "")) in SEED_FNS and GEN in c:
+        return "S"
+    if t.get("callee", "") in wrappers:
         return "S"
     if direct:
         if "ExpRestricted01 as" in c and c.split("::<")[0].endswith("::sample"):
@@ -47,13 +49,13 @@ def top_level_loops(fn):
     return out
 
 
-def check(fn):
+def check(fn, wrappers=()):
     """returns (n_events, rejections) where a rejection is (state, event, path of (event, line))"""
     body = fn["mir"]
     loops = top_level_loops(fn)
     ev = {}
     for i, t in mirq.calls(body):
-        e = event_of(t)
+        e = event_of(t, wrappers)
         if e:
             line = t["sp"][1]
             region = -1
